@@ -109,7 +109,7 @@ def gen_event(rng):
     if kind == "pdata":
         return ["pdata", rng.choice(["text", "bin", "fragstart", "cont", "badutf8"])]
     if kind == "pviol":
-        return ["pviol", rng.choice(["opcode", "rsv", "mask", "fragctl", "bigctl", "ctlopcode"])]
+        return ["pviol", rng.choice(["opcode", "rsv", "mask", "fragctl", "bigping", "ctlopcode"])]
     if kind == "pcombo":
         parts = []
         for _ in range(rng.randint(2, 3)):
